@@ -154,6 +154,16 @@ def _convert(c, obj, dtm):
 
 
 def run_impl(c):
+    """the caller's ambient decimal context must not influence any result"""
+    import decimal
+    if c.get("ctx"):
+        with decimal.localcontext() as ctx:
+            ctx.prec = c["ctx"]
+            return _run_impl(c)
+    return _run_impl(c)
+
+
+def _run_impl(c):
     import hightime as ht
     import nitypes.bintime as bt
     k = c["k"]
@@ -197,7 +207,16 @@ def run_impl(c):
         return vf.try_impl(lambda: _read_td(a, convert_timedelta(_cls(a, False), convert_timedelta(_cls(b, False), obj))))
     if k == "ctor_int":
         n = bool(c["n"]) if c.get("as_bool") else c["n"]
-        return vf.try_impl(lambda: bt.TimeDelta(n).ticks)
+        if c.get("np"):
+            import numpy as np
+            n = getattr(np, c["np"])(n)
+
+        def f():
+            t = bt.TimeDelta(n).ticks
+            if type(t) is not int:
+                raise RuntimeError("ticks is a %s" % type(t).__name__)
+            return t
+        return vf.try_impl(f)
     if k == "ctor_rat":
         x = float.fromhex(c["x"]) if c["ty"] == "float" else Decimal(c["x"])
         return vf.try_impl(lambda: bt.TimeDelta(x).ticks)
@@ -346,7 +365,8 @@ def gen_cases(rng, tier):
             for _ in range(n):
                 v = _value_for(rng, src, False)
                 via = rng.choice(["direct", "direct", "timing_interval", "timing_offset"])
-                cases.append({"k": "conv_td", "src": src, "dst": dst, "v": v, "via": via, "mode": rng.randrange(2)})
+                cases.append({"k": "conv_td", "src": src, "dst": dst, "v": v, "via": via, "mode": rng.randrange(2),
+                              "ctx": rng.choice([None, None, None, 9]) if (src, dst) == ("Ht", "Bt") else None})
                 v = _value_for(rng, src, True)
                 if src == "Bt":
                     v = max(-60052752000 * T64, min(4712869095517621926724475289599, v)) if rng.random() < 0.9 else v
@@ -389,12 +409,17 @@ def gen_cases(rng, tier):
         t2 = max(-60052752000 * T64, min(4712869095517621926724475289599, _value_for(rng, "Bt", True)))
         cases.append({"k": "roundtrip", "dtm": True, "a": "Bt", "b": "Ht", "v": t2})
         cases.append({"k": "roundtrip", "dtm": True, "a": "Dt", "b": "Ht", "v": _value_for(rng, "Dt", True)})
-        cases.append({"k": "prec_round", "t": rng.choice(battery(False)) if rng.random() < 0.3 else rand128(rng)})
+        cases.append({"k": "prec_round", "t": rng.choice(battery(False)) if rng.random() < 0.3 else rand128(rng), "ctx": rng.choice([None, None, 9, 28])})
         cases.append({"k": "total_seconds", "t": rng.choice(battery(False)) if rng.random() < 0.3 else rand128(rng)})
     # constructors
     for nn in [0, 1, -1, (1 << 63) - 1, -(1 << 63), 1 << 63, -(1 << 63) - 1, 1 << 70, 86400, 12345678901]:
         cases.append({"k": "ctor_int", "n": nn})
     cases.append({"k": "ctor_int", "n": 1, "as_bool": True})
+    # integer seconds given as NumPy scalars (each within its own type): exact, never wrapped
+    for ty, vals in (("int64", [0, 1, -1, 5, (1 << 63) - 1, -(1 << 63), 86400]), ("int32", [1, -7, (1 << 31) - 1]),
+                     ("uint64", [1, 1 << 63, (1 << 64) - 1]), ("uint8", [255]), ("int8", [-128])):
+        for v in vals:
+            cases.append({"k": "ctor_int", "n": v, "np": ty})
     for _ in range(n * 2):
         m = rng.randrange(8)
         if m == 0:
@@ -416,7 +441,7 @@ def gen_cases(rng, tier):
             s = "%s%d.%0*d" % (rng.choice(["", "-"]), rng.choice([0, 1, 100, 86399, rng.randrange(10**11)]), digs, rng.randrange(10**digs))
             if rng.random() < 0.1:
                 s = rng.choice(["1e30", "-1e25", "9223372036854775807.999999999999999999999", "-9223372036854775808", "9223372036854775808", "1e-30", "0.5e-19", "2.7105054312137610850186320021748542785644531250e-20"])
-            cases.append({"k": "ctor_rat", "ty": "Decimal", "x": s})
+            cases.append({"k": "ctor_rat", "ty": "Decimal", "x": s, "ctx": rng.choice([None, None, 9, 5, 28, 100])})
     for ty, xs in (("float", ["nan", "inf", "-inf"]), ("Decimal", ["NaN", "Infinity", "-Infinity", "sNaN"])):
         for x in xs:
             cases.append({"k": "ctor_nonfinite", "ty": ty, "x": x})
